@@ -54,6 +54,17 @@ impl Command for CommandImpl {
                 } else if path.is_file() {
                     fs::remove_file(&path)
                 } else if recursive {
+                    // a name ending with . or .. (dir/. or dir/sub/..) can not be removed itself, refuse before
+                    // the directory content is deleted
+                    let last_name = context.arguments[index]
+                        .trim_end_matches(std::path::is_separator)
+                        .rsplit(std::path::is_separator)
+                        .next();
+                    if last_name == Some(".") || last_name == Some("..") {
+                        return CommandResult::Error(
+                            "Unable to remove a path ending with . or ..".to_string(),
+                        );
+                    }
                     fs::remove_dir_all(&path)
                 } else {
                     fs::remove_dir(&path)
